@@ -19,7 +19,7 @@ LEVEL_TEXT = ("Theorems in Coq (Properties/C06.v). c06_replay_equiv / c06_replay
               "c06_commit_stores_counters; c06_chunks_roundtrip: for every chunk size n > 0 the chunks of a file concatenate to the file, none exceeds n, their number is the advertised count, the sender's "
               "Valid/Chunk/Next walk emits exactly the labelled stream and the loader's AddChunk rebuilds every file exactly, no file left open, for every file list with distinct names; "
               "c06_snapshot_install: after installation (NewDB, UpdateTerm, EnableNotifications) the replica is consistent, has the sender's counter and switch and the sender's map except the two term keys; "
-              "c06_new_term_switch_read_back. REFUTED without the success hypothesis (c06_refuted_after_failed_batch): a batch failing after one of its puts took a version id leaves the live replica's "
+              "c06_new_term_switch_read_back; c06_reads_do_not_change_state: for every schedule interleaving log entries with reads of any kind served by one replica only, that replica ends in exactly the state of a replica that applied the log alone, answers the writes alike, and answers every read from the log prefix applied so far. REFUTED without the success hypothesis (c06_refuted_after_failed_batch): a batch failing after one of its puts took a version id leaves the live replica's "
               "counter ahead (next put: version 2 live, 1 on a re-created replica) - confirmed on the real kv.DB and, for ErrMissingSequenceDeltas, through the real leader (known finding, root cause C13); "
               "c06_failed_entry_leaves_no_trace_partial states what holds with failures. Two defects found and repaired in the tree: O-40 (handleSnapshot did not restore the notifications switch: "
               "c06_snapshot_install_before_O40_refuted) and O-41 (BecomeLeader decoded log entries with reflection-based proto.Unmarshal, refusing non-UTF-8 strings that every other path accepts).")
@@ -34,13 +34,13 @@ ASSUMES = ["every application of the committed prefix succeeds (c06_refuted_afte
            "snapshot files have distinct names (a directory listing) and fewer than 2^31 chunks"]
 RULE = ("routes: one case = one committed log of 5-30 write requests of the C12 valid stream (plain/conditional/session/indexed/sequence puts, deletes, delete-ranges, session create/close batches, "
         "bulk ranges around DeleteRangeThreshold; 30% with notifications disabled) applied live (compared with the model) and on three more real kv.DB instances: close/reopen at random points, "
-        "StrictMem crash to the last flush + replay from the stored commit offset, real Snapshot() shipped with chunk size in {3,7,64,1000,4096,1 MiB} + replay; plus 4 sender and ~7 loader cases per log on generated "
+        "StrictMem crash to the last flush + replay from the stored commit offset, real Snapshot() shipped with chunk size in {3,7,64,1000,4096,1 MiB} + replay, and a replica that between any two entries also answers 0-5 reads of every kind (Get x5 comparison types with/without value, index Get/List/RangeScan, List, RangeScan, notification reads, ReadCommitOffset; sequence waiters, snapshots) compared after every entry with a replica that applied the log alone (reads-interleaved; every read answer compared with the model); plus 4 sender and ~7 loader cases per log on generated "
         "directories (empty files, exact multiples, damaged streams) compared with Db/Snapshot.v. controllers: one case = one log fed to a real FollowerController (optionally restarted), to a fresh follower through "
         "SendSnapshot + Replicate, to a follower that is then elected leader, a request stream through a real LeaderController whose WAL is replayed on a fresh DB, and a replication-factor-2 leader whose follower acks are held by the harness while the callers of ~40% of the writes are cancelled between WAL sync and commit (leader DB vs its log replayed vs a real follower); distinct by generator sub-seed")
 LEGS = [
-    {"name": "routes", "harness": "db", "model": "db", "args": ["-mode", "c06"], "n_quick": 120, "n_thorough": 6000,
+    {"name": "routes", "harness": "db", "model": "db", "args": ["-mode", "c06"], "n_quick": 100, "n_thorough": 6000,
      "corpus": "corpus/db06", "timeout": 900, "timeout_thorough": 3000},
-    {"name": "controllers", "harness": "db", "model": "db", "args": ["-mode", "c06ctl"], "n_quick": 40, "n_thorough": 2000,
+    {"name": "controllers", "harness": "db", "model": "db", "args": ["-mode", "c06ctl"], "n_quick": 30, "n_thorough": 2000,
      "corpus": "corpus/db06/ctl", "timeout": 900, "timeout_thorough": 3000},
 ]
 
